@@ -59,6 +59,7 @@ class CohGen:
             class_enum_default=(target == 'matlab'),    # D40 (pybind): default value of the class's own enum type
             typedefs=True,
             serialize_p=0.0,            # probability that a class declares the serialize() marker
+            enum_namesakes=0.3,         # class-scoped enums of different classes sharing one simple name
             split_overloads=False,      # D50 (matlab): overloads of a free function in two blocks of one namespace
             reopen_ns=0.25,             # a namespace written as two adjacent blocks (D6, repaired)
         )
@@ -283,6 +284,13 @@ class CohGen:
     # ------------------------------------------------------------ declarations
     def enum(self, cls=None):
         name = self.uname()
+        if cls is not None and self.r.random() < self.f['enum_namesakes']:
+            # class-scoped enums of different classes may share their simple name
+            taken = {e['name'] for e in self.enums if e['cls'] == cls and e['ns'] == self.cur_ns}
+            taken |= {e['name'] for e in self.enums if e['cls'] is None}     # (namespace-level names stay unique)
+            cand = sorted({e['name'] for e in self.enums if e['cls'] not in (None, cls)} - taken)
+            if cand:
+                name = self.r.choice(cand)
         vals = tuple(self.name(self.r.choice(['A', 'B', 'red', 'Dog', 'k'])) for _ in range(self.r.choice([1, 2, 3, 5])))
         kw = self.r.choice(['enum', 'enum class'])
         self.enums.append({'ns': self.cur_ns, 'cls': cls, 'name': name, 'vals': vals, 'kw': kw,
@@ -430,6 +438,10 @@ class CohGen:
         if any(m.k == 'Method' and m.name in ('serialize', 'serializable') for m in members) and not rec['default_ctor']:
             # DOCS.md: serialize() requires a publicly accessible default constructor (the generated pickle support
             # needs one for serializable() as well although DOCS.md says otherwise: known finding D43)
+            # (a constructor whose parameters all have defaults would make the zero-argument call ambiguous)
+            members = [S.Ctor(m.name, (S.Arg(m.args[0].type, m.args[0].name, None),) + tuple(m.args[1:]), m.template)
+                       if (m.k == 'Ctor' and m.args and all(a.default is not None for a in m.args)) else m
+                       for m in members]
             members.insert(0, S.Ctor(name, ()))
             rec['default_ctor'] = True
         self.classes.append(rec)
